@@ -46,6 +46,9 @@ func TestVerif_C11Remote(t *testing.T) {
 		zones := map[string]mockdns.Zone{
 			"example.invalid.":    {MX: []net.MX{{Host: "mx.example.invalid.", Pref: 10}}},
 			"other.invalid.":      {MX: []net.MX{{Host: "mx.example.invalid.", Pref: 10}}},
+			// an internationalized recipient domain, in both spellings (the resolver mock is a plain map)
+			"почта.example.invalid.":        {MX: []net.MX{{Host: "mx.example.invalid.", Pref: 10}}},
+			"xn--80a1acny.example.invalid.": {MX: []net.MX{{Host: "mx.example.invalid.", Pref: 10}}},
 			"mx.example.invalid.": {A: []string{"127.0.0.1"}},
 		}
 		tgt := testTarget(t, zones, nil, nil)
@@ -80,7 +83,12 @@ func TestVerif_C11Remote(t *testing.T) {
 				t.Fatalf("case %d: Start: %v", ci, err)
 			}
 			anyOK := false
-			for _, rc := range []string{"rcpt@example.invalid", "second@other.invalid"}[:1+r.intn(2)] {
+			rcs := []string{"rcpt@example.invalid", "second@other.invalid"}[:1+r.intn(2)]
+			if (ci+mi)%3 == 0 { // chosen without drawing: earlier histories keep their shape
+				rcs = append([]string{}, rcs...)
+				rcs = append(rcs, "third@почта.example.invalid")
+			}
+			for _, rc := range rcs {
 				if err := d.AddRcpt(ctx, rc, smtp.RcptOptions{}); err == nil {
 					anyOK = true
 				} else if reqtls {
@@ -122,7 +130,7 @@ func TestVerif_C11Remote(t *testing.T) {
 			g.ReleaseMsg(ip, "example.com")
 		}
 		leaks += 2 - gotMsg
-		for _, dom := range []string{"example.invalid", "other.invalid"} {
+		for _, dom := range []string{"example.invalid", "other.invalid", "почта.example.invalid", "xn--80a1acny.example.invalid"} {
 			gotDest := take(func(c context.Context) error { return g.TakeDest(c, dom) })
 			for i := 0; i < gotDest; i++ {
 				g.ReleaseDest(dom)
